@@ -111,7 +111,7 @@ func c05GenFor(invalidBias bool) func(t *rapid.T, tier string) any {
 			c.Tasks = append(c.Tasks, rapid.SliceOfN(opGen, 1, maxOps).Draw(t, "ops"))
 		}
 		emit := rapid.Custom(func(t *rapid.T) simex.Emit {
-			return simex.Emit{Kind: rapid.SampledFrom([]string{"ok", "ok", "ok", "dup", "unrequested", "badcid", "corrupt"}).Draw(t, "ek"), Idx: rapid.IntRange(0, 7).Draw(t, "ei")}
+			return simex.Emit{Kind: rapid.SampledFrom([]string{"ok", "ok", "ok", "dup", "unrequested", "badcid", "corrupt", "alias"}).Draw(t, "ek"), Idx: rapid.IntRange(0, 7).Draw(t, "ei")}
 		})
 		callGen := rapid.Custom(func(t *rapid.T) simex.Call {
 			return simex.Call{Emits: rapid.SliceOfN(emit, 0, 6).Draw(t, "emits"), End: rapid.SampledFrom([]string{"rest", "rest", "close", "error"}).Draw(t, "end")}
